@@ -1,2 +1,958 @@
+//! C16 / C17: the AST schema as the source text defines it.
+//!
+//! Parses src/ast/*.rs, src/ast/helpers/*.rs, src/tokenizer.rs (and the `define_keywords!` call of
+//! src/keywords.rs) with syn and extracts every struct/enum that derives `Visit`, `VisitMut` or
+//! `Serialize` (through `cfg_attr`): name, generics, the type-level `visit(with = "...")` hook, and per
+//! variant/field the name or index, the type expression, the field-level hook and every `serde(...)`
+//! attribute.  `cfg(...)` on items/variants/fields is evaluated for the feature set the harness builds
+//! with (std, serde, visitor).  Generic definitions are monomorphised per instantiation that occurs.
+//!
+//! Outputs: `<out>/lean/Schema.lean`, `<out>/schema.json`, `<out>/obl_schema.json`.
+use crate::leanout::lean_str;
 use crate::*;
-pub fn run(_repo: &Path, _out: &Path) -> Result<(), String> { Ok(()) }
+use quote::ToTokens;
+use serde_json::json;
+use syn::punctuated::Punctuated;
+use syn::{Attribute, Meta, Token};
+
+const FEATURES: [&str; 3] = ["std", "serde", "visitor"];
+pub const HOOKS: [&str; 5] = ["visit_query", "visit_relation", "visit_table_factor", "visit_expr", "visit_statement"];
+const NOOP_EXPECTED: [&str; 11] = ["u8", "u16", "u32", "u64", "i8", "i16", "i32", "i64", "char", "bool", "String"];
+
+// ------------------------------------------------------------------ type expressions
+#[derive(Clone, Debug, PartialEq)]
+enum TyE {
+    Unit,
+    /// one of the primitive spellings (`u64`, `bool`, `String`, `f64`, ...)
+    Prim(String),
+    Opt(Box<TyE>),
+    Vec(Box<TyE>),
+    Boxed(Box<TyE>),
+    Tup(Vec<TyE>),
+    /// named type with generic arguments (before monomorphisation)
+    Named(String, Vec<TyE>),
+    /// type parameter of the enclosing definition
+    Var(usize),
+    /// resolved instance id (after monomorphisation)
+    Inst(usize),
+    /// anything else (references, arrays, fn pointers, ...): outside the model
+    Other(String),
+}
+
+fn prim_class(p: &str) -> &'static str {
+    match p {
+        "bool" => "bool",
+        "char" => "char",
+        "String" => "str",
+        "u8" | "u16" | "u32" | "u64" | "usize" => "uint",
+        "i8" | "i16" | "i32" | "i64" | "isize" => "sint",
+        "f32" | "f64" => "float",
+        _ => "other",
+    }
+}
+fn is_prim(s: &str) -> bool {
+    matches!(s, "bool" | "char" | "String" | "u8" | "u16" | "u32" | "u64" | "usize" | "u128" | "i8" | "i16" | "i32" | "i64" | "isize" | "i128" | "f32" | "f64")
+}
+
+fn ty_of(t: &syn::Type, params: &[String]) -> TyE {
+    match t {
+        syn::Type::Paren(p) => ty_of(&p.elem, params),
+        syn::Type::Group(p) => ty_of(&p.elem, params),
+        syn::Type::Tuple(tt) => {
+            if tt.elems.is_empty() {
+                TyE::Unit
+            } else {
+                TyE::Tup(tt.elems.iter().map(|e| ty_of(e, params)).collect())
+            }
+        }
+        syn::Type::Path(tp) if tp.qself.is_none() => {
+            let seg = tp.path.segments.last().unwrap();
+            let name = seg.ident.to_string();
+            let args: Vec<TyE> = match &seg.arguments {
+                syn::PathArguments::AngleBracketed(a) => a
+                    .args
+                    .iter()
+                    .filter_map(|g| if let syn::GenericArgument::Type(t) = g { Some(ty_of(t, params)) } else { None })
+                    .collect(),
+                _ => vec![],
+            };
+            if tp.path.segments.len() == 1 && args.is_empty() {
+                if let Some(i) = params.iter().position(|p| *p == name) {
+                    return TyE::Var(i);
+                }
+            }
+            match (name.as_str(), args.len()) {
+                ("Option", 1) => TyE::Opt(Box::new(args[0].clone())),
+                ("Vec", 1) => TyE::Vec(Box::new(args[0].clone())),
+                ("Box", 1) => TyE::Boxed(Box::new(args[0].clone())),
+                (n, 0) if is_prim(n) => TyE::Prim(n.to_string()),
+                _ => TyE::Named(name, args),
+            }
+        }
+        other => TyE::Other(other.to_token_stream().to_string()),
+    }
+}
+
+fn ty_text(t: &TyE, insts: &[Inst]) -> String {
+    match t {
+        TyE::Unit => "()".into(),
+        TyE::Prim(p) => p.clone(),
+        TyE::Opt(x) => format!("Option<{}>", ty_text(x, insts)),
+        TyE::Vec(x) => format!("Vec<{}>", ty_text(x, insts)),
+        TyE::Boxed(x) => format!("Box<{}>", ty_text(x, insts)),
+        TyE::Tup(xs) => format!("({})", xs.iter().map(|x| ty_text(x, insts)).collect::<Vec<_>>().join(", ")),
+        TyE::Named(n, a) if a.is_empty() => n.clone(),
+        TyE::Named(n, a) => format!("{n}<{}>", a.iter().map(|x| ty_text(x, insts)).collect::<Vec<_>>().join(", ")),
+        TyE::Var(i) => format!("${i}"),
+        TyE::Inst(i) => insts.get(*i).map(|x| x.display.clone()).unwrap_or_else(|| format!("#{i}")),
+        TyE::Other(s) => format!("?{s}"),
+    }
+}
+
+fn subst(t: &TyE, args: &[TyE]) -> TyE {
+    match t {
+        TyE::Var(i) => args.get(*i).cloned().unwrap_or(TyE::Other(format!("unbound ${i}"))),
+        TyE::Opt(x) => TyE::Opt(Box::new(subst(x, args))),
+        TyE::Vec(x) => TyE::Vec(Box::new(subst(x, args))),
+        TyE::Boxed(x) => TyE::Boxed(Box::new(subst(x, args))),
+        TyE::Tup(xs) => TyE::Tup(xs.iter().map(|x| subst(x, args)).collect()),
+        TyE::Named(n, a) => TyE::Named(n.clone(), a.iter().map(|x| subst(x, args)).collect()),
+        x => x.clone(),
+    }
+}
+
+// ------------------------------------------------------------------ attributes
+#[derive(Default, Clone, Debug)]
+struct Attrs {
+    derives: Set<String>,
+    /// every `visit(with = "...")` found (the derive keeps the last one)
+    visit_with: Vec<String>,
+    /// `visit(...)` contents that are not `with = "..."`
+    visit_bad: Vec<String>,
+    serde: Vec<String>,
+    /// cfg predicate evaluated for FEATURES
+    enabled: bool,
+}
+
+fn cfg_eval(m: &Meta) -> bool {
+    match m {
+        Meta::NameValue(nv) if nv.path.is_ident("feature") => {
+            if let syn::Expr::Lit(syn::ExprLit { lit: syn::Lit::Str(s), .. }) = &nv.value {
+                FEATURES.contains(&s.value().as_str())
+            } else {
+                false
+            }
+        }
+        Meta::List(l) => {
+            let inner: Vec<Meta> = l.parse_args_with(Punctuated::<Meta, Token![,]>::parse_terminated).map(|p| p.into_iter().collect()).unwrap_or_default();
+            if l.path.is_ident("not") {
+                !inner.first().map(cfg_eval).unwrap_or(false)
+            } else if l.path.is_ident("all") {
+                inner.iter().all(cfg_eval)
+            } else if l.path.is_ident("any") {
+                inner.iter().any(cfg_eval)
+            } else {
+                false
+            }
+        }
+        // `test`, `sqlparser_verif`, ...: not set for the schema (they never guard AST items)
+        Meta::Path(p) => p.is_ident("sqlparser_verif"),
+        _ => false,
+    }
+}
+
+fn absorb_meta(m: &Meta, a: &mut Attrs) {
+    match m {
+        Meta::List(l) if l.path.is_ident("derive") => {
+            if let Ok(ps) = l.parse_args_with(Punctuated::<syn::Path, Token![,]>::parse_terminated) {
+                for p in ps {
+                    a.derives.insert(p.segments.last().unwrap().ident.to_string());
+                }
+            }
+        }
+        Meta::List(l) if l.path.is_ident("visit") => {
+            // exactly the grammar of derive/src/lib.rs: `with = "<ident>"`
+            let mut ok = false;
+            if let Ok(nv) = l.parse_args::<syn::MetaNameValue>() {
+                if nv.path.is_ident("with") {
+                    if let syn::Expr::Lit(syn::ExprLit { lit: syn::Lit::Str(s), .. }) = &nv.value {
+                        a.visit_with.push(s.value());
+                        ok = true;
+                    }
+                }
+            }
+            if !ok {
+                a.visit_bad.push(l.tokens.to_string());
+            }
+        }
+        Meta::List(l) if l.path.is_ident("serde") => a.serde.push(l.tokens.to_string()),
+        Meta::List(l) if l.path.is_ident("cfg_attr") => {
+            if let Ok(ps) = l.parse_args_with(Punctuated::<Meta, Token![,]>::parse_terminated) {
+                let v: Vec<Meta> = ps.into_iter().collect();
+                if let Some(pred) = v.first() {
+                    if cfg_eval(pred) {
+                        for inner in &v[1..] {
+                            absorb_meta(inner, a);
+                        }
+                    }
+                }
+            }
+        }
+        Meta::List(l) if l.path.is_ident("cfg") => {
+            if let Ok(ps) = l.parse_args_with(Punctuated::<Meta, Token![,]>::parse_terminated) {
+                if !ps.iter().all(cfg_eval) {
+                    a.enabled = false;
+                }
+            }
+        }
+        Meta::Path(p) if p.is_ident("serde") => a.serde.push(String::new()),
+        _ => {}
+    }
+}
+
+fn attrs_of(attrs: &[Attribute]) -> Attrs {
+    let mut a = Attrs { enabled: true, ..Default::default() };
+    for at in attrs {
+        absorb_meta(&at.meta, &mut a);
+    }
+    a
+}
+
+// ------------------------------------------------------------------ definitions
+#[derive(Clone, Debug)]
+struct FieldD {
+    name: Option<String>,
+    ty: TyE,
+    hook: Option<String>,
+    visit_bad: Vec<String>,
+    serde: Vec<String>,
+}
+#[derive(Clone, Debug, PartialEq)]
+enum ShapeK {
+    Unit,
+    Newtype,
+    Tuple,
+    Struct,
+}
+#[derive(Clone, Debug)]
+struct ShapeD {
+    kind: ShapeK,
+    fields: Vec<FieldD>,
+}
+#[derive(Clone, Debug)]
+struct VariantD {
+    name: String,
+    shape: ShapeD,
+    serde: Vec<String>,
+    visit_attr: Vec<String>,
+    has_discriminant: bool,
+}
+#[derive(Clone, Debug)]
+struct Def {
+    name: String,
+    file: String,
+    params: Vec<String>,
+    is_enum: bool,
+    attrs: Attrs,
+    /// struct: one pseudo-variant holding the shape
+    variants: Vec<VariantD>,
+}
+/// a monomorphic instance of a definition
+#[derive(Clone, Debug)]
+struct Inst {
+    def: usize,
+    args: Vec<TyE>,
+    display: String,
+    variants: Vec<VariantD>,
+}
+
+fn shape_of(fields: &syn::Fields, params: &[String]) -> ShapeD {
+    let conv = |f: &syn::Field| -> Option<FieldD> {
+        let a = attrs_of(&f.attrs);
+        if !a.enabled {
+            return None;
+        }
+        Some(FieldD {
+            name: f.ident.as_ref().map(|i| i.to_string()),
+            ty: ty_of(&f.ty, params),
+            hook: a.visit_with.last().cloned(),
+            visit_bad: a.visit_bad.clone(),
+            serde: a.serde.clone(),
+        })
+    };
+    match fields {
+        syn::Fields::Unit => ShapeD { kind: ShapeK::Unit, fields: vec![] },
+        syn::Fields::Named(n) => ShapeD { kind: ShapeK::Struct, fields: n.named.iter().filter_map(conv).collect() },
+        syn::Fields::Unnamed(u) => {
+            let fs: Vec<FieldD> = u.unnamed.iter().filter_map(conv).collect();
+            // serde_derive: exactly one unnamed field = newtype, otherwise tuple (also for zero fields)
+            ShapeD { kind: if fs.len() == 1 { ShapeK::Newtype } else { ShapeK::Tuple }, fields: fs }
+        }
+    }
+}
+
+fn params_of(g: &syn::Generics) -> Vec<String> {
+    g.params.iter().filter_map(|p| if let syn::GenericParam::Type(t) = p { Some(t.ident.to_string()) } else { None }).collect()
+}
+
+fn wanted(a: &Attrs) -> bool {
+    a.enabled && ["Visit", "VisitMut", "Serialize", "Deserialize"].iter().any(|d| a.derives.contains(*d))
+}
+
+struct Scan {
+    defs: Vec<Def>,
+    /// pub struct/enum seen that derive none of the traits: (name, file)
+    underived: Vec<(String, String)>,
+    /// manual `impl Visit[Mut] for <ty>`: (trait, type text, file)
+    manual: Vec<(String, String, String)>,
+    noop: Vec<String>,
+}
+
+fn scan_items(items: &[syn::Item], file: &str, sc: &mut Scan) {
+    for it in items {
+        match it {
+            syn::Item::Struct(s) => {
+                let a = attrs_of(&s.attrs);
+                if !a.enabled {
+                    continue;
+                }
+                if !wanted(&a) {
+                    if matches!(s.vis, syn::Visibility::Public(_)) {
+                        sc.underived.push((s.ident.to_string(), file.to_string()));
+                    }
+                    continue;
+                }
+                let params = params_of(&s.generics);
+                let shape = shape_of(&s.fields, &params);
+                sc.defs.push(Def {
+                    name: s.ident.to_string(),
+                    file: file.into(),
+                    params,
+                    is_enum: false,
+                    attrs: a,
+                    variants: vec![VariantD { name: s.ident.to_string(), shape, serde: vec![], visit_attr: vec![], has_discriminant: false }],
+                });
+            }
+            syn::Item::Enum(e) => {
+                let a = attrs_of(&e.attrs);
+                if !a.enabled {
+                    continue;
+                }
+                if !wanted(&a) {
+                    if matches!(e.vis, syn::Visibility::Public(_)) {
+                        sc.underived.push((e.ident.to_string(), file.to_string()));
+                    }
+                    continue;
+                }
+                let params = params_of(&e.generics);
+                let mut vs = vec![];
+                for v in &e.variants {
+                    let va = attrs_of(&v.attrs);
+                    if !va.enabled {
+                        continue;
+                    }
+                    vs.push(VariantD {
+                        name: v.ident.to_string(),
+                        shape: shape_of(&v.fields, &params),
+                        serde: va.serde.clone(),
+                        visit_attr: va.visit_with.iter().cloned().chain(va.visit_bad.iter().cloned()).collect(),
+                        has_discriminant: v.discriminant.is_some(),
+                    });
+                }
+                sc.defs.push(Def { name: e.ident.to_string(), file: file.into(), params, is_enum: true, attrs: a, variants: vs });
+            }
+            syn::Item::Impl(im) => {
+                if let Some((_, path, _)) = &im.trait_ {
+                    let t = path.segments.last().unwrap().ident.to_string();
+                    if t == "Visit" || t == "VisitMut" {
+                        let a = attrs_of(&im.attrs);
+                        if a.enabled {
+                            sc.manual.push((t, im.self_ty.to_token_stream().to_string().replace(' ', ""), file.to_string()));
+                        }
+                    }
+                }
+            }
+            syn::Item::Macro(m) => {
+                let a = attrs_of(&m.attrs);
+                if a.enabled && m.mac.path.is_ident("visit_noop") {
+                    if let Ok(ts) = m.mac.parse_body_with(Punctuated::<syn::Type, Token![,]>::parse_terminated) {
+                        for t in ts {
+                            sc.noop.push(t.to_token_stream().to_string().replace(' ', ""));
+                        }
+                    }
+                }
+            }
+            syn::Item::Mod(m) => {
+                let a = attrs_of(&m.attrs);
+                // `#[cfg(test)] mod tests` is skipped by cfg_eval (test is not set)
+                if a.enabled {
+                    if let Some((_, items)) = &m.content {
+                        scan_items(items, file, sc);
+                    }
+                }
+            }
+            _ => {}
+        }
+    }
+}
+
+/// `define_keywords!(A, B = "x", ...)` -> ["NoKeyword", "A", "B", ...] plus the derive text of the macro body
+fn keyword_enum(repo: &Path) -> Result<(Vec<String>, String), String> {
+    let p = repo.join("src/keywords.rs");
+    let src = fs::read_to_string(&p).map_err(|e| format!("{}: {e}", p.display()))?;
+    let file = syn::parse_file(&src).map_err(|e| format!("{}: {e}", p.display()))?;
+    let mut out = vec!["NoKeyword".to_string()];
+    let mut body = String::new();
+    let mut found = false;
+    for it in &file.items {
+        if let syn::Item::Macro(m) = it {
+            if m.mac.path.is_ident("define_keywords") && m.ident.is_none() {
+                found = true;
+                let mut expect_ident = true;
+                let mut skip_value = false;
+                for tt in m.mac.tokens.clone() {
+                    match tt {
+                        proc_macro2::TokenTree::Ident(i) if expect_ident => {
+                            out.push(i.to_string());
+                            expect_ident = false;
+                        }
+                        proc_macro2::TokenTree::Punct(p) if p.as_char() == ',' => {
+                            expect_ident = true;
+                            skip_value = false;
+                        }
+                        proc_macro2::TokenTree::Punct(p) if p.as_char() == '=' => skip_value = true,
+                        _ if skip_value => {}
+                        other => return Err(format!("keywords.rs: unexpected token {other} in define_keywords!")),
+                    }
+                }
+            }
+            if m.mac.path.is_ident("macro_rules") && m.ident.as_ref().map(|i| i == "define_keywords").unwrap_or(false) {
+                body = m.mac.tokens.to_string();
+            }
+        }
+    }
+    if !found {
+        return Err("keywords.rs: define_keywords! invocation not found".into());
+    }
+    Ok((out, body))
+}
+
+// ------------------------------------------------------------------ run
+pub fn run(repo: &Path, out: &Path) -> Result<(), String> {
+    let mut files: Vec<PathBuf> = rs_files(&repo.join("src/ast"));
+    files.push(repo.join("src/tokenizer.rs"));
+    let mut sc = Scan { defs: vec![], underived: vec![], manual: vec![], noop: vec![] };
+    for f in &files {
+        let src = fs::read_to_string(f).map_err(|e| format!("{}: {e}", f.display()))?;
+        let parsed = syn::parse_file(&src).map_err(|e| format!("{}: {e}", f.display()))?;
+        let rel = f.strip_prefix(repo).unwrap_or(f).display().to_string();
+        scan_items(&parsed.items, &rel, &mut sc);
+    }
+    // manual impls anywhere else in src/ (outside the scanned files)
+    for f in rs_files(&repo.join("src")) {
+        if files.contains(&f) {
+            continue;
+        }
+        let src = fs::read_to_string(&f).map_err(|e| format!("{}: {e}", f.display()))?;
+        if let Ok(parsed) = syn::parse_file(&src) {
+            let rel = f.strip_prefix(repo).unwrap_or(&f).display().to_string();
+            let mut tmp = Scan { defs: vec![], underived: vec![], manual: vec![], noop: vec![] };
+            scan_items(&parsed.items, &rel, &mut tmp);
+            sc.manual.extend(tmp.manual);
+            sc.noop.extend(tmp.noop);
+            // AST-deriving types defined outside the scanned files are part of the schema too
+            sc.defs.extend(tmp.defs);
+        }
+    }
+    // Keyword: defined by macro; an opaque unit-variant enum
+    let (kw_variants, kw_body) = keyword_enum(repo)?;
+    let kw_serde = kw_body.contains("Serialize") && kw_body.contains("Deserialize");
+    let kw_visit = kw_body.contains("Visit") && kw_body.contains("VisitMut");
+    {
+        let mut a = Attrs { enabled: true, ..Default::default() };
+        if kw_serde {
+            a.derives.insert("Serialize".into());
+            a.derives.insert("Deserialize".into());
+        }
+        if kw_visit {
+            a.derives.insert("Visit".into());
+            a.derives.insert("VisitMut".into());
+        }
+        if kw_body.contains("serde (") || kw_body.contains("serde(") {
+            a.serde.push("in define_keywords! body".into());
+        }
+        sc.defs.push(Def {
+            name: "Keyword".into(),
+            file: "src/keywords.rs".into(),
+            params: vec![],
+            is_enum: true,
+            attrs: a,
+            variants: kw_variants
+                .iter()
+                .map(|n| VariantD { name: n.clone(), shape: ShapeD { kind: ShapeK::Unit, fields: vec![] }, serde: vec![], visit_attr: vec![], has_discriminant: false })
+                .collect(),
+        });
+    }
+
+    // ---- name table of definitions
+    let mut by_name: Map<String, Vec<usize>> = Map::new();
+    for (i, d) in sc.defs.iter().enumerate() {
+        by_name.entry(d.name.clone()).or_default().push(i);
+    }
+    let dup_names: Vec<String> = by_name.iter().filter(|(_, v)| v.len() > 1).map(|(k, v)| format!("{k} x{}", v.len())).collect();
+
+    // ---- monomorphic instances: non-generic definitions first (source order), then instantiations on demand
+    let mut insts: Vec<Inst> = vec![];
+    let mut inst_key: Map<String, usize> = Map::new();
+    let mut unresolved: Set<String> = Set::new();
+    for (i, d) in sc.defs.iter().enumerate() {
+        if d.params.is_empty() {
+            inst_key.insert(d.name.clone(), insts.len());
+            insts.push(Inst { def: i, args: vec![], display: d.name.clone(), variants: d.variants.clone() });
+        }
+    }
+    // resolve field types, creating instances of generic definitions
+    fn resolve(t: &TyE, sc: &Scan, by_name: &Map<String, Vec<usize>>, insts: &mut Vec<Inst>, inst_key: &mut Map<String, usize>, unresolved: &mut Set<String>, work: &mut Vec<usize>) -> TyE {
+        match t {
+            TyE::Opt(x) => TyE::Opt(Box::new(resolve(x, sc, by_name, insts, inst_key, unresolved, work))),
+            TyE::Vec(x) => TyE::Vec(Box::new(resolve(x, sc, by_name, insts, inst_key, unresolved, work))),
+            TyE::Boxed(x) => TyE::Boxed(Box::new(resolve(x, sc, by_name, insts, inst_key, unresolved, work))),
+            TyE::Tup(xs) => TyE::Tup(xs.iter().map(|x| resolve(x, sc, by_name, insts, inst_key, unresolved, work)).collect()),
+            TyE::Named(n, args) => {
+                let args: Vec<TyE> = args.iter().map(|x| resolve(x, sc, by_name, insts, inst_key, unresolved, work)).collect();
+                let key = ty_text(&TyE::Named(n.clone(), args.clone()), insts);
+                if let Some(&i) = inst_key.get(&key) {
+                    return TyE::Inst(i);
+                }
+                match by_name.get(n) {
+                    Some(v) if sc.defs[v[0]].params.len() == args.len() && !args.is_empty() => {
+                        let d = &sc.defs[v[0]];
+                        let id = insts.len();
+                        inst_key.insert(key.clone(), id);
+                        let variants = d
+                            .variants
+                            .iter()
+                            .map(|vd| {
+                                let mut vd = vd.clone();
+                                for f in vd.shape.fields.iter_mut() {
+                                    f.ty = subst(&f.ty, &args);
+                                }
+                                vd
+                            })
+                            .collect();
+                        insts.push(Inst { def: v[0], args: args.clone(), display: key, variants });
+                        work.push(id);
+                        TyE::Inst(id)
+                    }
+                    _ => {
+                        unresolved.insert(key.clone());
+                        TyE::Other(format!("unresolved {key}"))
+                    }
+                }
+            }
+            x => x.clone(),
+        }
+    }
+    let mut work: Vec<usize> = (0..insts.len()).collect();
+    while let Some(i) = work.pop() {
+        let mut vs = insts[i].variants.clone();
+        for v in vs.iter_mut() {
+            for f in v.shape.fields.iter_mut() {
+                f.ty = resolve(&f.ty, &sc, &by_name, &mut insts, &mut inst_key, &mut unresolved, &mut work);
+            }
+        }
+        insts[i].variants = vs;
+    }
+
+    // ---- interned names (type names, variant names, field names)
+    let mut names: Vec<String> = vec![];
+    let mut name_id: Map<String, usize> = Map::new();
+    let mut intern = |s: &str| -> usize {
+        if let Some(&i) = name_id.get(s) {
+            return i;
+        }
+        let i = names.len();
+        names.push(s.to_string());
+        name_id.insert(s.to_string(), i);
+        i
+    };
+    for inst in &insts {
+        intern(&sc.defs[inst.def].name);
+        for v in &inst.variants {
+            intern(&v.name);
+            for f in &v.shape.fields {
+                if let Some(n) = &f.name {
+                    intern(n);
+                }
+            }
+        }
+    }
+    let nid = |s: &str| -> usize { *name_id.get(s).unwrap() };
+    let hook_id = |h: &str| -> usize { HOOKS.iter().position(|x| *x == h).unwrap_or(99) };
+
+    // ---- reachability
+    let succ = |i: usize| -> Vec<usize> {
+        fn collect(t: &TyE, o: &mut Vec<usize>) {
+            match t {
+                TyE::Opt(x) | TyE::Vec(x) | TyE::Boxed(x) => collect(x, o),
+                TyE::Tup(xs) => xs.iter().for_each(|x| collect(x, o)),
+                TyE::Inst(i) => o.push(*i),
+                _ => {}
+            }
+        }
+        let mut o = vec![];
+        for v in &insts[i].variants {
+            for f in &v.shape.fields {
+                collect(&f.ty, &mut o);
+            }
+        }
+        o
+    };
+    let reach = |root: &str| -> Set<usize> {
+        let mut seen = Set::new();
+        if let Some(&r) = inst_key.get(root) {
+            let mut st = vec![r];
+            while let Some(x) = st.pop() {
+                if seen.insert(x) {
+                    st.extend(succ(x));
+                }
+            }
+        }
+        seen
+    };
+    let reach_stmt = reach("Statement");
+    let reach_tok = reach("Token");
+    let reach_any: Set<usize> = reach_stmt.union(&reach_tok).cloned().collect();
+
+    // all field type expressions (with owner text) of reachable instances
+    let mut all_fields: Vec<(usize, String, TyE)> = vec![];
+    for (i, inst) in insts.iter().enumerate() {
+        for v in &inst.variants {
+            for (k, f) in v.shape.fields.iter().enumerate() {
+                let fname = f.name.clone().unwrap_or_else(|| k.to_string());
+                let owner = if sc.defs[inst.def].is_enum { format!("{}::{}.{}", inst.display, v.name, fname) } else { format!("{}.{}", inst.display, fname) };
+                all_fields.push((i, owner, f.ty.clone()));
+            }
+        }
+    }
+    fn any_ty(t: &TyE, p: &dyn Fn(&TyE) -> bool) -> bool {
+        if p(t) {
+            return true;
+        }
+        match t {
+            TyE::Opt(x) | TyE::Vec(x) | TyE::Boxed(x) => any_ty(x, p),
+            TyE::Tup(xs) => xs.iter().any(|x| any_ty(x, p)),
+            _ => false,
+        }
+    }
+
+    // ---- Lean
+    fn lean_ty(t: &TyE) -> String {
+        match t {
+            TyE::Unit => ".unit".into(),
+            TyE::Prim(p) => match prim_class(p) {
+                "bool" => ".bool".into(),
+                "char" => ".char".into(),
+                "str" => ".str".into(),
+                "uint" => ".uint".into(),
+                "sint" => ".sint".into(),
+                "float" => ".float".into(),
+                _ => ".other".into(),
+            },
+            TyE::Opt(x) => format!(".opt ({})", lean_ty(x)),
+            TyE::Vec(x) => format!(".vec ({})", lean_ty(x)),
+            TyE::Boxed(x) => format!(".box ({})", lean_ty(x)),
+            TyE::Tup(xs) => format!(".tup [{}]", xs.iter().map(lean_ty).collect::<Vec<_>>().join(", ")),
+            TyE::Inst(i) => format!(".named {i}"),
+            TyE::Named(..) | TyE::Var(_) | TyE::Other(_) => ".other".into(),
+        }
+    }
+    let lean_opt = |h: &Option<String>| -> String { h.as_ref().map(|x| format!("(some {})", hook_id(x))).unwrap_or("none".into()) };
+    let lean_field = |f: &FieldD, k: usize| -> String {
+        let n = f.name.as_ref().map(|n| nid(n)).unwrap_or(k);
+        format!("⟨{n}, {}, {}, {}⟩", lean_ty(&f.ty), lean_opt(&f.hook), f.serde.len())
+    };
+    let lean_shape = |s: &ShapeD| -> String {
+        let fs = s.fields.iter().enumerate().map(|(k, f)| lean_field(f, k)).collect::<Vec<_>>();
+        match s.kind {
+            ShapeK::Unit => ".unit".into(),
+            ShapeK::Newtype => format!(".newtype {}", fs[0]),
+            ShapeK::Tuple => format!(".tuple [{}]", fs.join(", ")),
+            ShapeK::Struct => format!(".struct [{}]", fs.join(", ")),
+        }
+    };
+    let mut o = String::new();
+    o.push_str("/- GENERATED by `translator schema` from src/ast/*.rs, src/ast/helpers/*.rs, src/tokenizer.rs, src/keywords.rs.\n   Do not edit.  Type ids = position in `schema.defs`; name ids = position in `names`;\n   hook ids: 0 query, 1 relation, 2 table_factor, 3 expr, 4 statement (99 = unknown). -/\nimport SqlVerif.Model.SchemaTy\nnamespace SqlVerif.Gen.Schema\nopen SqlVerif.Schema\n\n");
+    o.push_str(&format!("def names : List String := [{}]\n", names.iter().map(|s| lean_str(s)).collect::<Vec<_>>().join(", ")));
+    o.push_str(&format!("def typeNames : List String := [{}]\n", insts.iter().map(|s| lean_str(&s.display)).collect::<Vec<_>>().join(", ")));
+    o.push_str(&format!("def hookNames : List String := [{}]\n\n", HOOKS.iter().map(|s| lean_str(s)).collect::<Vec<_>>().join(", ")));
+    // one definition per type keeps elaboration fast and error messages local
+    for (i, inst) in insts.iter().enumerate() {
+        let d = &sc.defs[inst.def];
+        let hook = lean_opt(&d.attrs.visit_with.last().cloned());
+        let tattrs = d.attrs.serde.len();
+        o.push_str(&format!("/-- {} ({}) -/\n", inst.display, d.file));
+        if d.is_enum {
+            let vs = inst.variants.iter().map(|v| format!("⟨{}, {}, {}⟩", nid(&v.name), lean_shape(&v.shape), v.serde.len())).collect::<Vec<_>>();
+            // long enums are split over lines
+            o.push_str(&format!("def t{i} : TypeDef := .enum {} {hook} {tattrs} [\n  {}]\n", nid(&d.name), vs.join(",\n  ")));
+        } else {
+            o.push_str(&format!("def t{i} : TypeDef := .struct {} {hook} {tattrs} ({})\n", nid(&d.name), lean_shape(&inst.variants[0].shape)));
+        }
+    }
+    o.push_str(&format!("\ndef schema : Schema := ⟨[{}]⟩\n\n", (0..insts.len()).map(|i| format!("t{i}")).collect::<Vec<_>>().join(", ")));
+    let root_id = |n: &str| -> String { inst_key.get(n).map(|i| i.to_string()).unwrap_or("9999".into()) };
+    for (lean, rust) in [("statementId", "Statement"), ("exprId", "Expr"), ("queryId", "Query"), ("tableFactorId", "TableFactor"), ("objectNameId", "ObjectName"), ("tokenId", "Token"), ("keywordId", "Keyword")] {
+        o.push_str(&format!("def {lean} : Nat := {}\n", root_id(rust)));
+    }
+    // relation-hooked positions
+    let mut rel_names = vec![];
+    let mut rel_ids = vec![];
+    let mut hooked_all = vec![];
+    for (i, inst) in insts.iter().enumerate() {
+        let d = &sc.defs[inst.def];
+        for (vi, v) in inst.variants.iter().enumerate() {
+            for (k, f) in v.shape.fields.iter().enumerate() {
+                if let Some(h) = &f.hook {
+                    let fname = f.name.clone().unwrap_or_else(|| k.to_string());
+                    let pos = if d.is_enum { format!("{}::{}.{}", inst.display, v.name, fname) } else { format!("{}.{}", inst.display, fname) };
+                    hooked_all.push(json!({"pos": pos, "hook": h, "type": i, "variant": vi, "field": k, "ty": ty_text(&f.ty, &insts)}));
+                    if h == "visit_relation" {
+                        rel_names.push(pos);
+                        rel_ids.push(format!("({i}, {vi}, {k})"));
+                    }
+                }
+            }
+        }
+    }
+    o.push_str(&format!("/-- fields carrying `visit(with = \"visit_relation\")`: (type id, variant index (0 for a struct), field index) -/\ndef relationHooked : List (Nat × Nat × Nat) := [{}]\n", rel_ids.join(", ")));
+    o.push_str(&format!("def relationHookedNames : List String := [{}]\n", rel_names.iter().map(|s| lean_str(s)).collect::<Vec<_>>().join(", ")));
+    let type_hooks: Vec<(String, String)> = insts.iter().filter_map(|x| sc.defs[x.def].attrs.visit_with.last().map(|h| (x.display.clone(), h.clone()))).collect();
+    o.push_str(&format!("def typeHookNames : List (String × Nat) := [{}]\n", type_hooks.iter().map(|(t, h)| format!("({}, {})", lean_str(t), hook_id(h))).collect::<Vec<_>>().join(", ")));
+    let n_serde_attrs: usize = sc.defs.iter().map(|d| d.attrs.serde.len() + d.variants.iter().map(|v| v.serde.len() + v.shape.fields.iter().map(|f| f.serde.len()).sum::<usize>()).sum::<usize>()).sum();
+    o.push_str(&format!("/-- number of `serde(...)` attributes found on the extracted definitions -/\ndef serdeAttrCount : Nat := {n_serde_attrs}\n"));
+    o.push_str(&format!("def manualVisitImpls : List String := [{}]\n", sc.manual.iter().map(|(t, ty, _)| lean_str(&format!("{t} for {ty}"))).collect::<Vec<_>>().join(", ")));
+    o.push_str(&format!("def visitNoopTypes : List String := [{}]\n", sc.noop.iter().map(|s| lean_str(s)).collect::<Vec<_>>().join(", ")));
+    o.push_str("\nend SqlVerif.Gen.Schema\n");
+    write_if_changed(&out.join("lean/Schema.lean"), &o);
+
+    // ---- schema.json
+    fn json_ty(t: &TyE, insts: &[Inst]) -> serde_json::Value {
+        match t {
+            TyE::Unit => json!({"k": "unit"}),
+            TyE::Prim(p) => json!({"k": "prim", "p": p, "class": prim_class(p)}),
+            TyE::Opt(x) => json!({"k": "opt", "t": json_ty(x, insts)}),
+            TyE::Vec(x) => json!({"k": "vec", "t": json_ty(x, insts)}),
+            TyE::Boxed(x) => json!({"k": "box", "t": json_ty(x, insts)}),
+            TyE::Tup(xs) => json!({"k": "tup", "ts": xs.iter().map(|x| json_ty(x, insts)).collect::<Vec<_>>()}),
+            TyE::Inst(i) => json!({"k": "named", "id": i, "name": insts[*i].display}),
+            other => json!({"k": "other", "text": ty_text(other, insts)}),
+        }
+    }
+    let shape_kind = |k: &ShapeK| match k {
+        ShapeK::Unit => "unit",
+        ShapeK::Newtype => "newtype",
+        ShapeK::Tuple => "tuple",
+        ShapeK::Struct => "struct",
+    };
+    let jtypes: Vec<serde_json::Value> = insts
+        .iter()
+        .enumerate()
+        .map(|(i, inst)| {
+            let d = &sc.defs[inst.def];
+            let variants: Vec<serde_json::Value> = inst
+                .variants
+                .iter()
+                .map(|v| {
+                    json!({
+                        "name": v.name, "name_id": nid(&v.name), "kind": shape_kind(&v.shape.kind), "serde": v.serde, "visit_attr": v.visit_attr,
+                        "fields": v.shape.fields.iter().enumerate().map(|(k, f)| json!({
+                            "name": f.name, "index": k, "name_id": f.name.as_ref().map(|n| nid(n)),
+                            "ty": json_ty(&f.ty, &insts), "ty_text": ty_text(&f.ty, &insts),
+                            "hook": f.hook.as_ref().map(|h| hook_id(h)), "hook_name": f.hook, "serde": f.serde,
+                        })).collect::<Vec<_>>(),
+                    })
+                })
+                .collect();
+            json!({
+                "id": i, "name": inst.display, "serde_name": d.name, "name_id": nid(&d.name), "file": d.file,
+                "kind": if d.is_enum { "enum" } else { "struct" },
+                "generic_params": d.params, "generic_args": inst.args.iter().map(|a| ty_text(a, &insts)).collect::<Vec<_>>(),
+                "hook": d.attrs.visit_with.last().map(|h| hook_id(h)), "hook_name": d.attrs.visit_with.last(),
+                "derives": d.attrs.derives.iter().collect::<Vec<_>>(), "serde": d.attrs.serde,
+                "reachable_from_statement": reach_stmt.contains(&i), "reachable_from_token": reach_tok.contains(&i),
+                "variants": variants,
+            })
+        })
+        .collect();
+    let by_serde_name: Map<String, Vec<usize>> = {
+        let mut m: Map<String, Vec<usize>> = Map::new();
+        for (i, inst) in insts.iter().enumerate() {
+            m.entry(sc.defs[inst.def].name.clone()).or_default().push(i);
+        }
+        m
+    };
+    let j = json!({
+        "features": FEATURES, "hooks": HOOKS, "names": names, "types": jtypes,
+        "by_name": inst_key, "by_serde_name": by_serde_name,
+        "roots": {"Statement": inst_key.get("Statement"), "Token": inst_key.get("Token")},
+        "hooked_fields": hooked_all,
+        "manual_visit_impls": sc.manual.iter().map(|(t, ty, f)| json!({"trait": t, "type": ty, "file": f})).collect::<Vec<_>>(),
+        "visit_noop": sc.noop,
+        "underived_pub_types": sc.underived.iter().map(|(n, f)| json!({"name": n, "file": f})).collect::<Vec<_>>(),
+    });
+    write_if_changed(&out.join("schema.json"), &serde_json::to_string(&j).unwrap());
+
+    // ---- obligations
+    let mut c16: Map<String, serde_json::Value> = Map::new();
+    let mut c17: Map<String, serde_json::Value> = Map::new();
+    let ob = |ok: bool, note: String| json!({"ok": ok, "note": note});
+    let uniq = ob(dup_names.is_empty(), if dup_names.is_empty() { format!("{} definitions, all names distinct (serde reflection and the schema key on type names)", sc.defs.len()) } else { format!("duplicate type names: {}", dup_names.join(", ")) });
+    c16.insert("schema.type-names-unique".into(), uniq.clone());
+    c17.insert("schema.type-names-unique".into(), uniq);
+
+    // the four node kinds carry their type-level hooks
+    let want = [("Expr", "visit_expr"), ("Statement", "visit_statement"), ("Query", "visit_query"), ("TableFactor", "visit_table_factor")];
+    let mut bad = vec![];
+    for (t, h) in want {
+        let got = by_name.get(t).and_then(|v| sc.defs[v[0]].attrs.visit_with.last().cloned());
+        if got.as_deref() != Some(h) {
+            bad.push(format!("{t}: expected {h}, found {got:?}"));
+        }
+    }
+    c16.insert("schema.node-kinds-hooked".into(), ob(bad.is_empty(), if bad.is_empty() { format!("type-level hooks: {}", type_hooks.iter().map(|(t, h)| format!("{t}={h}")).collect::<Vec<_>>().join(", ")) } else { bad.join("; ") }));
+
+    // every `with` is one of the five hook families; the attribute grammar is the derive's
+    let mut bad = vec![];
+    for d in &sc.defs {
+        for h in &d.attrs.visit_with {
+            if hook_id(h) == 99 {
+                bad.push(format!("{}: with={h}", d.name));
+            }
+        }
+        if d.attrs.visit_with.len() > 1 {
+            bad.push(format!("{}: {} type-level visit attributes", d.name, d.attrs.visit_with.len()));
+        }
+        for b in &d.attrs.visit_bad {
+            bad.push(format!("{}: visit({b})", d.name));
+        }
+        for v in &d.variants {
+            // the derive ignores attributes placed on a variant: a hook there is silently lost
+            for a in &v.visit_attr {
+                bad.push(format!("{}::{}: visit attribute on a variant is ignored by the derive ({a})", d.name, v.name));
+            }
+            for f in &v.shape.fields {
+                if let Some(h) = &f.hook {
+                    if hook_id(h) == 99 {
+                        bad.push(format!("{}::{}: with={h}", d.name, v.name));
+                    }
+                }
+                for b in &f.visit_bad {
+                    bad.push(format!("{}::{}: visit({b})", d.name, v.name));
+                }
+            }
+        }
+    }
+    c16.insert("schema.hooks-known".into(), ob(bad.is_empty(), if bad.is_empty() { format!("{} field-level hooks, {} type-level hooks, all among {:?}", hooked_all.len(), type_hooks.len(), HOOKS) } else { bad.join("; ") }));
+
+    // a relation hook passes the field to a callback taking &ObjectName: the field type must be ObjectName
+    let bad: Vec<String> = hooked_all.iter().filter(|h| h["hook"] == "visit_relation" && h["ty"] != "ObjectName").map(|h| format!("{}: {}", h["pos"], h["ty"])).collect();
+    c16.insert("schema.relation-hook-on-object-name".into(), ob(bad.is_empty(), if bad.is_empty() { format!("{} relation-hooked fields, all of type ObjectName", rel_names.len()) } else { bad.join("; ") }));
+
+    // reachable from Statement: derives present
+    let mut missing_v = vec![];
+    let mut missing_s = vec![];
+    for &i in &reach_any {
+        let d = &sc.defs[insts[i].def];
+        if reach_stmt.contains(&i) && !(d.attrs.derives.contains("Visit") && d.attrs.derives.contains("VisitMut")) {
+            missing_v.push(insts[i].display.clone());
+        }
+        if !(d.attrs.derives.contains("Serialize") && d.attrs.derives.contains("Deserialize")) {
+            missing_s.push(insts[i].display.clone());
+        }
+    }
+    c16.insert("schema.reachable-derive-visit".into(), ob(missing_v.is_empty() && !reach_stmt.is_empty(), if missing_v.is_empty() { format!("{} types reachable from Statement, all derive Visit and VisitMut", reach_stmt.len()) } else { format!("lack Visit/VisitMut derive: {}", missing_v.join(", ")) }));
+    c17.insert("schema.reachable-derive-serde".into(), ob(missing_s.is_empty() && !reach_stmt.is_empty() && !reach_tok.is_empty(), if missing_s.is_empty() { format!("{} types reachable from Statement, {} from Token, all derive Serialize and Deserialize", reach_stmt.len(), reach_tok.len()) } else { format!("lack Serialize/Deserialize derive: {}", missing_s.join(", ")) }));
+
+    // manual impls: containers + noop set only; no derived type also has a manual impl
+    let mut bad = vec![];
+    for (t, ty, f) in &sc.manual {
+        let okc = ["Option<T>", "Vec<T>", "Box<T>"].contains(&ty.as_str());
+        // the two `$t` impls inside macro_rules! visit_noop are not items syn sees; anything else is listed
+        if !okc {
+            bad.push(format!("impl {t} for {ty} ({f})"));
+        }
+    }
+    for n in &sc.noop {
+        if !NOOP_EXPECTED.contains(&n.as_str()) {
+            bad.push(format!("visit_noop!({n})"));
+        }
+        if by_name.contains_key(n) {
+            bad.push(format!("visit_noop!({n}) on an AST type"));
+        }
+    }
+    c16.insert("schema.manual-visit-impls".into(), ob(bad.is_empty(), if bad.is_empty() { format!("manual impls: {} container impls (Option/Vec/Box x Visit/VisitMut), visit_noop!({})", sc.manual.len(), sc.noop.join(", ")) } else { bad.join("; ") }));
+
+    // every primitive that occurs in a reachable field has a no-op impl; nothing outside the model
+    let mut bad = vec![];
+    let mut prims: Set<String> = Set::new();
+    for (i, owner, t) in &all_fields {
+        if !reach_any.contains(i) {
+            continue;
+        }
+        if any_ty(t, &|x| matches!(x, TyE::Other(_) | TyE::Named(..) | TyE::Var(_))) {
+            bad.push(format!("{owner}: {}", ty_text(t, &insts)));
+        }
+        if reach_stmt.contains(i) {
+            if any_ty(t, &|x| matches!(x, TyE::Tup(_) | TyE::Unit)) {
+                bad.push(format!("{owner}: tuple/unit field has no Visit impl: {}", ty_text(t, &insts)));
+            }
+            fn ps(t: &TyE, o: &mut Set<String>) {
+                match t {
+                    TyE::Prim(p) => {
+                        o.insert(p.clone());
+                    }
+                    TyE::Opt(x) | TyE::Vec(x) | TyE::Boxed(x) => ps(x, o),
+                    TyE::Tup(xs) => xs.iter().for_each(|x| ps(x, o)),
+                    _ => {}
+                }
+            }
+            ps(t, &mut prims);
+        }
+    }
+    for p in &prims {
+        if !sc.noop.contains(p) {
+            bad.push(format!("primitive {p} used in the AST has no visit_noop impl"));
+        }
+    }
+    c16.insert("schema.field-types-modelled".into(), ob(bad.is_empty(), if bad.is_empty() { format!("primitives used: {}", prims.iter().cloned().collect::<Vec<_>>().join(", ")) } else { bad.join("; ") }));
+
+    // C17
+    c17.insert("schema.no-serde-attributes".into(), ob(n_serde_attrs == 0, format!("{n_serde_attrs} serde(...) attributes on {} definitions", sc.defs.len())));
+    let mut bad = vec![];
+    for (i, owner, t) in &all_fields {
+        if !reach_any.contains(i) {
+            continue;
+        }
+        if any_ty(t, &|x| matches!(x, TyE::Other(_) | TyE::Named(..) | TyE::Var(_))) {
+            bad.push(format!("{owner}: {}", ty_text(t, &insts)));
+        }
+        if any_ty(t, &|x| matches!(x, TyE::Prim(p) if matches!(prim_class(p), "float" | "other"))) {
+            bad.push(format!("{owner}: float or 128-bit field {}", ty_text(t, &insts)));
+        }
+        if any_ty(t, &|x| matches!(x, TyE::Opt(y) if matches!(**y, TyE::Opt(_) | TyE::Unit))) {
+            bad.push(format!("{owner}: {} (None and Some(None)/Some(()) both serialise to null)", ty_text(t, &insts)));
+        }
+    }
+    c17.insert("schema.field-types-modelled".into(), ob(bad.is_empty(), if bad.is_empty() { "no float, 128-bit, reference or unresolved field types; no Option<Option<_>> / Option<()>".to_string() } else { bad.join("; ") }));
+    let disc: Vec<String> = sc.defs.iter().flat_map(|d| d.variants.iter().filter(|v| v.has_discriminant).map(move |v| format!("{}::{}", d.name, v.name))).collect();
+    c17.insert("schema.keyword-enum-extracted".into(), ob(kw_variants.len() > 1 && kw_serde, format!("Keyword: {} unit variants read from define_keywords!; macro body derives serde: {kw_serde}, visit: {kw_visit}; explicit discriminants elsewhere: {}", kw_variants.len(), disc.len())));
+    if !unresolved.is_empty() {
+        let note = format!("named types without an extracted definition: {}", unresolved.iter().cloned().collect::<Vec<_>>().join(", "));
+        // only a problem when reachable: reported by field-types-modelled; listed here for the evidence
+        c16.insert("schema.unresolved-names".into(), ob(!all_fields.iter().any(|(i, _, t)| reach_any.contains(i) && any_ty(t, &|x| matches!(x, TyE::Other(s) if s.starts_with("unresolved")))), note.clone()));
+    }
+    let obl = json!({"C16": c16, "C17": c17});
+    write_if_changed(&out.join("obl_schema.json"), &serde_json::to_string_pretty(&obl).unwrap());
+    Ok(())
+}
